@@ -173,8 +173,15 @@ OnExit(S, m, e) ==
                   e.exc = "" /\ HookCount(m, "nteardown", m.pbatch[p]) = 1)
       m5 == Check(m4, "RunnerEndsClean", e.k = "run-jobs" /\ p \in DOMAIN m.pbatch /\ ~m.faulty /\ m.pbatch[p] \notin m.killedB
                       /\ (S.hooks.nsetup \/ S.hooks.nteardown), e.exc = "")
+      \* C05/C16: a batch that ran to its end hands over to the distributed submitter -- the runner starts its own
+      \* `try-submit-jobs` before it exits, whatever the jobs' and the node commands' exit codes were (otherwise the batch's
+      \* results wait in the node file until somebody else happens to run a round)
+      m5b == Check(m5, "NodeRoundAfterBatch",
+                   e.k = "run-jobs" /\ p \in DOMAIN m.pbatch /\ ~m.faulty /\ ~m.nodefault /\ m.pbatch[p] \notin m.killedB
+                     /\ S.dist /\ S.mode = "hpc",
+                   \E x \in DOMAIN m.kind : x # p /\ m.kind[x] = "try-submit-jobs" /\ x \in DOMAIN m.pbatch /\ m.pbatch[x] = m.pbatch[p])
       \* C13: resubmit-jobs on an incomplete submission refuses and leaves jobs, counters, submitter field and lock alone
-      m6 == Check(m5, "RefuseLeavesUnchanged", p \in DOMAIN m.refused /\ ~m.refused[p][2],
+      m6 == Check(m5b, "RefuseLeavesUnchanged", p \in DOMAIN m.refused /\ ~m.refused[p][2],
                   Keep(m) = m.refused[p][1] /\ ~e.clock /\ e.code # 0 /\ e.exc \in {"", "SystemExit"})
   IN m6
 
@@ -443,9 +450,15 @@ OnHook(S, m, e) ==
 OnFault(S, m, e) == [m EXCEPT !.faulty = TRUE, !.otherFaults = TRUE]
 OnNodeKill(S, m, e) == [m EXCEPT !.nodefault = TRUE]
 OnMarker(S, m, e) == [m EXCEPT !.marker = e.on]
-OnSqueue(S, m, e) == IF e.ok THEN m ELSE [m EXCEPT !.faulty = TRUE, !.sqfail = @ \cup {e.pid}]
+\* a failed attempt that JADE's own retry then gets answered is not a failed query: the round goes on normally
+OnSqueue(S, m, e) == IF e.ok THEN [m EXCEPT !.sqfail = @ \ {e.pid}] ELSE [m EXCEPT !.faulty = TRUE, !.sqfail = @ \cup {e.pid}]
 OnSqLie(S, m, e) == [m EXCEPT !.faulty = TRUE, !.otherFaults = TRUE, !.sqlie = TRUE]
 OnScancel(S, m, e) == [m EXCEPT !.scancelled = @ \cup {e.b}]
+
+\* C20 on a whole submission (incl. resubmissions): the consolidated event summary a user is shown holds every event that
+\* any process logged, by name, exactly once
+OnEventsObs(S, m, e) ==
+  Check(m, "EventsLosslessInSummary", ~m.faulty /\ ~m.nodefault, ToSet(e.summary) = ToSet(e.logged))
 
 OnEnd(S, m, e) ==
   LET \* C05 (bounded form of eventual completion on the real code)
@@ -489,6 +502,7 @@ MonStep(S, m0, e) ==
     [] e.e = "marker"    -> OnMarker(S, m, e)
     [] e.e \in {"kill", "fault"} -> OnFault(S, m, e)     \* injected faults only; a lock timeout or a broken marker is
                                                          \* what the environment does with markers JADE itself left behind
+    [] e.e = "eventsobs" -> OnEventsObs(S, m, e)
     [] e.e = "end"       -> OnEnd(S, m, e)
     [] OTHER             -> m
 
@@ -506,7 +520,7 @@ ClausesOf(c) ==
     [] c = "C04" -> {"CanceledShape", "CanceledNeverRuns", "CanceledOnlyIf", "CanceledIff", "RanExactlyOnceUnlessCanceled",
                      "NotCanceledRuns"}
     [] c = "C05" -> {"QuiescentRoundProgress", "NoIdleLeftover", "CompleteHasAllResults", "SummaryBeforeFlag", "CompleteOnce",
-                     "SummaryOnlyBeforeFlag",
+                     "SummaryOnlyBeforeFlag", "NodeRoundAfterBatch",
                      "NoSbatchAfterComplete", "CompletesAfterRecovery"}
     [] c = "C06" -> {"NodesBound", "ProcsBound"}
     [] c = "C07" -> {"BatchNonEmpty", "BatchJobsKnown", "OneGroup", "BatchSizeOrTime", "BlockedOnlyWithAllBlockers",
@@ -529,8 +543,8 @@ ClausesOf(c) ==
     [] c = "C16" -> {"HookConfigured", "HookEnv", "SetupOnceBeforeFirstHandOver", "SetupBeforeJobs", "TeardownOncePerCompletion",
                      "TeardownAfterAllOutcomes", "TeardownBeforeCompleteFlag", "NodeSetupOncePerBatch", "NodeSetupBeforeJobs",
                      "NodeTeardownAfterJobs", "NodeTeardownOncePerBatch", "RunnerEndsClean", "FinalResultsComplete",
-                     "CompletesAfterRecovery", "LocalRunRecordsResults", "LocalHooksOnce"}
-    [] c = "C20" -> {"TallyPartition"}
+                     "CompletesAfterRecovery", "LocalRunRecordsResults", "LocalHooksOnce", "NodeRoundAfterBatch"}
+    [] c = "C20" -> {"TallyPartition", "EventsLosslessInSummary"}
     [] OTHER -> {}
 
 Holds(m, c) == m.viol \cap ClausesOf(c) = {}
